@@ -382,7 +382,7 @@ def nat_shapes():
 
 
 def bounded(run):
-    cnt = 64 if run.tier == "quick" else 800
+    cnt = 64 if run.tier == "quick" else 800 * run.tmul
     jobs = [dict(seed=run.seed * 43 + k, count=cnt // 8) for k in range(8)]
     res, errs = native.pmap("contracts.C15", "nat_sweep", jobs)
     run.worker_errors(errs, len(jobs))
